@@ -390,7 +390,16 @@ where
                                 ..
                             }) if is_function_type && params.is_empty() => match &**body {
                                 BlockStmtOrExpr::Expr(value) => (**value).clone(),
-                                BlockStmtOrExpr::BlockStmt(..) => default.clone(),
+                                // (the body of a getter: what it returns is the function)
+                                BlockStmtOrExpr::BlockStmt(..) => Expr::Call(CallExpr {
+                                    span: DUMMY_SP,
+                                    callee: Callee::Expr(Box::new(Expr::Paren(ParenExpr {
+                                        span: DUMMY_SP,
+                                        expr: Box::new(default.clone()),
+                                    }))),
+                                    args: vec![],
+                                    ..Default::default()
+                                }),
                             },
                             _ => default.clone(),
                         };
